@@ -55,3 +55,18 @@ def clear(self):
     ensures("no_pools", is_list(self.pools) and nitems(self.pools) == 0 and self.chosen_pool is None)
     ensures("fresh_formatter", exact_instance(self.format, Formatter) and fresh(self.format))
     ensures("no_overridden_classes_left", nitems(self.overridden_feedbacks) == 0)
+
+
+@target("pedal.types.new_types:reset_builtin_modules", captures=['BUILTIN_MODULES', '_MODULE_LOADERS'])
+def reset_builtin_modules():
+    """What TIFA knows about library modules is rebuilt from the loaders: no module type object that an earlier
+    analysis may have mutated (a student's `math.pi = "3.14"` rewrites the shared ModuleType) survives a reset."""
+    requires(is_dict(BUILTIN_MODULES) and is_dict(_MODULE_LOADERS) and BUILTIN_MODULES is not _MODULE_LOADERS)
+    abstract("module_function", raises=None, ensures=[fresh(result)], label="loader")
+    modifies(mapping(BUILTIN_MODULES))
+    raises_nothing()
+    invariant(1, "only_new_types", forall_val(lambda k: implies(has_key(BUILTIN_MODULES, k), fresh(at(BUILTIN_MODULES, k)))),
+              modifies=[mapping(BUILTIN_MODULES)])
+    invariant(1, "loaded_so_far", forall(lambda j: has_key(BUILTIN_MODULES, iterated[j][0]), 0, seen))
+    ensures("every_module_type_is_new", forall_val(lambda k: implies(has_key(BUILTIN_MODULES, k),
+                                                                     fresh(at(BUILTIN_MODULES, k)))))
